@@ -213,7 +213,7 @@ theorem blocks_hold (goals : List (Nat × Goal)) (found : List M) (m : M) :
 
 theorem pop_of_marks (s : Solver M) (k : Nat) (ms : List Nat) (h : s.marks = k :: ms) :
     s.pop.stack = s.stack.take k ∧ s.pop.marks = ms ∧ s.pop.bad = s.bad := by
-  simp only [Solver.pop, h]; exact ⟨rfl, rfl, rfl⟩
+  simp [Solver.pop, h]
 
 /-- shape of the solver / client data between two rounds of the outer loop -/
 def OuterSt (obj : Nat → M → Int) (goals : List (Nat × Goal)) (mx : Mixin) (base : List Constraint)
@@ -401,6 +401,34 @@ theorem paretoOuter_spec (hO : OracleSpec A obj o) (mx : Mixin) (goals : List (N
           exact ih (found ++ [p]) _ (s2.pop.add _) ⟨by simp only [Solver.add]; rw [p2, m1],
             by simp only [Solver.add]; rw [p3, m2], by simp only [Solver.add]; rw [p1, m3, hblk, List.append_assoc]⟩
             hpo' hpw'
+
+/-- `list(pareto_optimize(goals))` -/
+theorem pareto_spec (hO : OracleSpec A obj o) (mx : Mixin) (goals : List (Nat × Goal)) (fuel : Nat)
+    (hsup : ∀ p ∈ goals, p.2.supported = true) (hne : goals ≠ []) (s : Solver M) :
+    OuterPost A obj goals s.stack s.marks s.bad (pareto o obj mx goals fuel s) := by
+  unfold pareto
+  have h1 : goals.any (fun (x : Nat × Goal) => !x.2.supported) = false := by
+    rw [List.any_eq_false]
+    intro p hp
+    simp [hsup p hp]
+  have h2 : goals.isEmpty = false := by
+    cases goals with
+    | nil => exact absurd rfl hne
+    | cons _ _ => rfl
+  simp only [h1, h2, Bool.false_eq_true, if_false]
+  have := paretoOuter_spec hO mx goals fuel s.stack s.marks s.bad fuel [] [] s.push
+    ⟨rfl, rfl, by cases mx <;> simp [blocks, Solver.push]⟩ (by simp) List.Pairwise.nil
+  simpa [accOf] using this
+
+/-- a Pareto goal outside the comparison table: `KeyError` in `OptPareto.__init__`, before `_setup` -/
+theorem pareto_unsupported (mx : Mixin) (goals : List (Nat × Goal)) (fuel : Nat) (s : Solver M)
+    (h : ∃ p ∈ goals, p.2.supported = false) : pareto o obj mx goals fuel s = (.keyErr, s) := by
+  unfold pareto
+  have h1 : goals.any (fun (x : Nat × Goal) => !x.2.supported) = true := by
+    rw [List.any_eq_true]
+    obtain ⟨p, hp, hs⟩ := h
+    exact ⟨p, hp, by simp [hs]⟩
+  simp [h1]
 
 end
 end PySMT.Opt
